@@ -852,10 +852,18 @@ class _MathShim:
         return math.sqrt(x)
 
 
-def _float_shim(x):
-    if isinstance(x, (ST, Node)):
-        return x
-    return float(x)
+class _FloatMeta(type):
+    def __instancecheck__(cls, x):  # `isinstance(t, float)` in the code under test: symbolic scalars count as floats
+        return isinstance(x, (float, Node)) or (isinstance(x, ST) and x.a.shape == ())
+
+
+class _float_shim(metaclass=_FloatMeta):
+    """stands for the builtin `float` inside traced modules: conversion leaves symbolic values alone"""
+
+    def __new__(cls, x=0.0):
+        if isinstance(x, (ST, Node)):
+            return x
+        return float(x)
 
 
 def _min_shim(*args, **kw):
